@@ -26,7 +26,7 @@ def c04(tier):
 def c06(tier):
     def own(d):
         return True   # blamed only if the twin execution without the reopen events is accepted
-    return PE.generic("C06", tier, profiles=["restart"], own=own, twin_flag="ro", n_quick=500, n_thorough=4000,
+    return PE.generic("C06", tier, profiles=["restart"], own=own, twin_flag="ro", n_quick=500, n_thorough=4000, blocks_view="c06_blocks",
                       extra_assumptions=[
                           "blame rule: a rejected execution counts against C06 only if the same execution without its "
                           "reopen events is accepted (restart invisible)",
